@@ -1207,7 +1207,7 @@ impl<S: Sut> World<S> {
     /// must also *stay* the same: feed both the remaining ops of the history (causally ready ones, in
     /// issue order) and compare reads after each. Catches hidden-state differences (witness clocks,
     /// pending removes) that only later change what a read returns.
-    fn followup(&mut self, x: &S, y: &S, k: Bits) -> Option<String> {
+    fn followup(&mut self, x: &S, y: &S, k: Bits) -> Option<(String, Bits)> {
         let mut x = x.clone();
         let mut y = y.clone();
         let mut kc = k;
@@ -1223,7 +1223,8 @@ impl<S: Sut> World<S> {
             self.st.ev("law_followup");
             let (ox, oy) = (x.observe(), y.observe());
             if ox.reads != oy.reads {
-                return Some(format!("after additionally applying ops {applied:?} to both: reads {} vs {}", ox.reads.show(), oy.reads.show()));
+                // the verdict depends on the follow-up ops too: they belong to the knowledge set of the violation
+                return Some((format!("after additionally applying ops {applied:?} to both: reads {} vs {}", ox.reads.show(), oy.reads.show()), kc));
             }
             if applied.len() >= 8 {
                 break;
@@ -1257,8 +1258,8 @@ impl<S: Sut> World<S> {
                 if ob(&ab).reads != ob(&ba).reads {
                     return Err(self.v("comm", ka | kb, format!("a+b reads {}\n   b+a reads {}\n   a={}\n   b={}", ob(&ab).reads.show(), ob(&ba).reads.show(), dump(&a).show(), dump(&b).show())));
                 }
-                if let Some(d) = self.followup(&ab, &ba, ka | kb) {
-                    return Err(self.v("comm", ka | kb, format!("a+b and b+a read the same now but diverge later: {d}\n   a={}\n   b={}", dump(&a).show(), dump(&b).show())));
+                if let Some((d, kf)) = self.followup(&ab, &ba, ka | kb) {
+                    return Err(self.v("comm", kf, format!("a+b and b+a read the same now but diverge later: {d}\n   a={}\n   b={}", dump(&a).show(), dump(&b).show())));
                 }
             }
             1 => {
@@ -1276,8 +1277,8 @@ impl<S: Sut> World<S> {
                 if ob(&ab_c).reads != ob(&a_bc).reads {
                     return Err(self.v("assoc", ka | kb | kc, format!("(a+b)+c reads {}\n   a+(b+c) reads {}\n   a={}\n   b={}\n   c={}", ob(&ab_c).reads.show(), ob(&a_bc).reads.show(), dump(&a).show(), dump(&b).show(), dump(&c).show())));
                 }
-                if let Some(d) = self.followup(&ab_c, &a_bc, ka | kb | kc) {
-                    return Err(self.v("assoc", ka | kb | kc, format!("(a+b)+c and a+(b+c) read the same now but diverge later: {d}\n   a={}\n   b={}\n   c={}", dump(&a).show(), dump(&b).show(), dump(&c).show())));
+                if let Some((d, kf)) = self.followup(&ab_c, &a_bc, ka | kb | kc) {
+                    return Err(self.v("assoc", kf, format!("(a+b)+c and a+(b+c) read the same now but diverge later: {d}\n   a={}\n   b={}\n   c={}", dump(&a).show(), dump(&b).show(), dump(&c).show())));
                 }
             }
             2 => {
@@ -1317,8 +1318,8 @@ impl<S: Sut> World<S> {
                     if ob(&f).reads != o.reads {
                         return Err(self.v("hybrid", ku, format!("merge(state(Ka),state(Kb)) reads {}\n   delivering Ka|Kb as ops reads {}\n   a={}\n   b={}", o.reads.show(), ob(&f).reads.show(), dump(&a).show(), dump(&b).show())));
                     }
-                    if let Some(d) = self.followup(&ab, &f, ku) {
-                        return Err(self.v("hybrid", ku, format!("merge(state(Ka),state(Kb)) and the op path for Ka|Kb read the same now but diverge later: {d}\n   a={}\n   b={}", dump(&a).show(), dump(&b).show())));
+                    if let Some((d, kf)) = self.followup(&ab, &f, ku) {
+                        return Err(self.v("hybrid", kf, format!("merge(state(Ka),state(Kb)) and the op path for Ka|Kb read the same now but diverge later: {d}\n   a={}\n   b={}", dump(&a).show(), dump(&b).show())));
                     }
                 }
             }
